@@ -29,6 +29,11 @@ Definition code (c : case) : N :=
          it says it consumed (C06 has the oracle for what must be reported) *)
       let k := presult_eqb (parse_frame buf) p in
       let o := match p with
+               | PFrame (Handshake ih pid) n =>
+                   (* the eight reserved bytes of a received handshake are not interpreted (extension bits) *)
+                   (n =? 68) && (n <=? len buf) &&
+                   bytes_eqb (firstn 20 buf) (firstn 20 (encode_msg (Handshake ih pid))) &&
+                   bytes_eqb (firstn 40 (skipn 28 buf)) (ih ++ pid) && (len ih =? 20) && (len pid =? 20)
                | PFrame m n => (n <=? len buf) && bep3b m (firstn (N.to_nat n) buf)
                | _ => true
                end in
